@@ -418,8 +418,13 @@ func (s *Lexer) getNextToken() (*Token, error) {
 			buf.WriteRune(ch)
 			current_state = SBLOCKCOMMENT
 		} else if current_state == SCOMMENTSTART {
-			buf.WriteRune(ch)
 			current_state = SCOMMENT
+			if ch == '\n' {
+				// an empty line comment ends at its newline like any other
+				s.unread_last()
+				break
+			}
+			buf.WriteRune(ch)
 		} else if ch == '(' && current_state == SSTART {
 			buf.WriteRune(ch)
 			current_state = SOPENPAREN
